@@ -12,10 +12,10 @@ def cats : List (Bytes × Int) := [([110, 111], 0), ([121, 101, 115], 1)]       
 
 /-- rows `no`, `maybe`, `yes` -/
 def chunk : Chunk :=
-  { inds := [0, 2, 7, 10], vals := [110, 111, 109, 97, 121, 98, 101, 121, 101, 115], off := 0, cap := 10, rows := 3 }
+  { inds := [0, 2, 7, 10], vals := [110, 111, 109, 97, 121, 98, 101, 121, 101, 115], off := 0, cap := 10, rows := 3, col := 0, ncols := 1 }
 
 theorem chunk_encodes : Encodes chunk [[110, 111], [109, 97, 121, 98, 101], [121, 101, 115]] := by
-  refine ⟨rfl, 0, ?_, by decide⟩
+  refine ⟨rfl, ⟨0, ?_, by decide⟩, by decide⟩
   simp [EncFrom, chunk, slice]
 
 /-- `maybe` is no key … -/
